@@ -22,6 +22,8 @@
  *   r reserve <h> <n>                     array handle of a library buffer (or empty): mpt_array_reserve(&h, n * 8, element traits)
  *   r lo new | r lo set <o> | r lo drop   local output (mptplot/history/output_local.c): property "" holds a reference to
  *                                          its target; set assigns harness metatype o (shown as handle h3)
+ *   r arr new <n> | rot <k> | self | drop  array of n metatype references (last element: object 1, others object 0):
+ *                                          assigned again from its rotated content / from its own storage (mpt_array_set)
  *   r end                                 drop every handle, then every external reference of small counters
  * value words: decimal, "max", "max-1"
  */
@@ -263,8 +265,23 @@ static void drop_handle(int h)
 }
 static int handle_empty(int h) { return hnd[h].isarr ? !hnd[h].arr._buf : !hnd[h].mt; }
 
+/* array of metatype references (mpt_meta_reference_traits elements), its elements in order: object indices */
+#define NREF 64
+static MPT_STRUCT(array) refarr = MPT_ARRAY_INIT;
+static int refarr_n;
+static int refarr_ok(int n)
+{
+	/* only harness metatypes 0 and 1 that can take n more references */
+	if (nobj < 2) return 0;
+	for (int i = 0; i < 2; i++) {
+		struct hobj *o = &objs[i];
+		if (o->kind != K_META || !o->alive || !o->ref._val || o->ref._val > 1000 - (uintptr_t) n) return 0;
+	}
+	return 1;
+}
 static void finish_script(void)
 {
+	if (refarr._buf) { mpt_array_clone(&refarr, 0); refarr_n = 0; }
 	for (int h = 0; h < NH; h++) drop_handle(h);
 	if (lout) { lout->_vptr->unref(lout); lout = 0; }
 	for (int i = 0; i < nobj; i++) {
@@ -460,6 +477,44 @@ int main(void)
 			}
 			else { puts("bad-op"); continue; }
 			result(r ? "ok" : "refused", "0");
+		}
+		else if (!strcmp(op, "arr") && drv_nw >= 3) {
+			/* r arr new <n>: n reference elements, the last names object 1, all others object 0
+			 * r arr rot <k>: the content is assigned to the array again, rotated by k (plain pointer values as source)
+			 * r arr self: the content is assigned from its own storage
+			 * r arr drop */
+			const MPT_STRUCT(type_traits) *tr = mpt_meta_reference_traits();
+			MPT_INTERFACE(metatype) *tmp[NREF];
+			size_t n, k;
+			if (!strcmp(drv_w[2], "new") && drv_nw == 4) {
+				if (refarr._buf || drv_parse_nat(drv_w[3], &n) || n < 2 || n > NREF || !refarr_ok((int) n)) { puts("bad-op"); continue; }
+				for (size_t j = 0; j < n; j++) tmp[j] = &objs[j == n - 1 ? 1 : 0].mt;
+				if (!mpt_array_set(&refarr, tr, n * sizeof(*tmp), tmp, 0)) { result("refused", "0"); continue; }
+				refarr_n = n;
+				result("ok", "0");
+			}
+			else if (!strcmp(drv_w[2], "rot") && drv_nw == 4) {
+				MPT_INTERFACE(metatype) **data;
+				if (!refarr._buf || drv_parse_nat(drv_w[3], &k) || !refarr_ok(refarr_n)) { puts("bad-op"); continue; }
+				n = refarr_n;
+				data = (void *) (refarr._buf + 1);
+				for (size_t j = 0; j < n; j++) tmp[j] = data[(j + k) % n];
+				if (!mpt_array_set(&refarr, tr, n * sizeof(*tmp), tmp, 0)) { result("refused", "0"); continue; }
+				result("ok", "0");
+			}
+			else if (!strcmp(drv_w[2], "self") && drv_nw == 3) {
+				if (!refarr._buf || !refarr_ok(refarr_n)) { puts("bad-op"); continue; }
+				n = refarr_n;
+				if (!mpt_array_set(&refarr, tr, n * sizeof(*tmp), refarr._buf + 1, 0)) { result("refused", "0"); continue; }
+				result("ok", "0");
+			}
+			else if (!strcmp(drv_w[2], "drop") && drv_nw == 3) {
+				if (!refarr._buf) { puts("bad-op"); continue; }
+				mpt_array_clone(&refarr, 0);
+				refarr_n = 0;
+				result("ok", "0");
+			}
+			else puts("bad-op");
 		}
 		else if (!strcmp(op, "detach") && drv_nw == 4) {
 			int h = parse_idx(drv_w[2], NH), oi;
